@@ -68,9 +68,27 @@ F  harmless: clean's locals renamed (totalSize, entries, size)
 After the review by grpA (AUDIT.md): evict's single `ok` split into rename / removal failures (Outcome with a half-removed
 group), the test-to-rename window exercised through a second add-only pause point (third finding), Store's and
 retrieveFiles' call ORDER extracted.  Mutations A-F were run before that refactor; B was re-run after the late-mark
-extension; a full re-run of the set after the refactor is still to do.
+extension; the set was re-run in full after the refactor and the fixes, see below.
 
-Unchanged tree: exit 0, 13/13, 613-617 cases, 0 disagreements, oracle failures only in the two listed classes.
+FIX PHASE.  Three findings repaired in /repo: 9d3a892 (Store marks its temporary), 588d777 (test and rename under the mutex);
+no-clean-below-high-water-mark stays (by design).  Re-introductions (git revert of each fix on a scratch copy): 9d3a892 -> exit 1,
+VIOLATION class compressed-temp-unprotected-during-store, 21/23; 588d777 -> exit 1, VIOLATION class
+entry-marked-between-test-and-rename-evicted, 21/23.  Seeded change /tmp/seedout/C14/patch.diff (loop consults a snapshot of the
+marks): exit 1, VIOLATION class entry-marked-after-cleaning-started-evicted, 5 disagreements.
+
+Mutation set re-run on the repaired base (all compile), quick 14-35 s each on a quiet machine:
+  A name[26]      -> exit 1, 20/23, 25 disagreements, four classes (entry-name-recognition, returned-total-wrong, bound-not-met, ...)
+  B renameUnlessMarked no longer looks at the marks (the repaired loop has no separate isMarked skip to delete)
+                  -> exit 1, 21/23, 12 disagreements, three classes (marked during pass / after cleaning started / between test and rename)
+  C no subtraction -> exit 1, 22/23, 20 disagreements, returned-total-wrong
+  D markDir drops added[path+"="] -> exit 1 by the facts only (`no-failing-input-found`, 0 disagreements).  Since 9d3a892 Store marks
+                  its temporary directly, so that second key no longer protects anything this process stores or retrieves in any
+                  scenario the harness can produce (it only protected, incidentally, another process's temporary of a key this process
+                  had retrieved).  A semantic change without a counterexample: reported as such.
+  E `<=`          -> exit 1, 22/23, bound-not-met + unprotected-above-low-after-pass
+  F harmless rename (incl. the new `renamed` local) -> exit 0, 23/23, 0 disagreements.
+
+Unchanged tree before the fix phase: exit 0, 13/13, 613-617 cases, 0 disagreements, oracle failures only in the two listed classes.
 Measured quick wall times 243 s .. 854 s for 2-4 CPU-min per run (shared lake lock); harness alone ~14 s.
 Thorough tier: exit 0, 13/13 incl. leanchecker, 6,757 cases (2,500 real passes over layouts), 0 disagreements, oracle
 failures only in the two listed classes; 16 min 33 s wall for 4.4 CPU-min (shared lake lock).
